@@ -180,6 +180,7 @@ func genCase(t *rapid.T) Case {
 			}
 		}
 	}
+	c.H.Rename = gen.MaybeRename(t, c.H.Schema)
 	return c
 }
 
@@ -193,12 +194,16 @@ func execCase(c Case) (res vt.Result) {
 	defer cleanup()
 	path := filepath.Join(dir, "sharddb.bbolt")
 	mgr := drive.Manager(h.CacheLimit)
-	s, err := drive.Open(path, h.Schema, h.MaxPointSize, mgr)
+	s, err := drive.OpenNamed(path, h.Schema, h.MaxPointSize, mgr, h.Rename)
 	if err != nil {
 		return vt.Result{Err: fmt.Errorf("open: %v", err)}
 	}
 	defer func() { s.Close() }()
 	m := model.NewCollection(h.Schema, h.MaxPointSize)
+	m.SizeNames = h.Rename
+	if len(h.Rename) > 0 {
+		vt.R().Count("cases_with_renamed_properties", 1)
+	}
 	base := runtime.NumGoroutine()
 	rewrites := 0
 	nontrivial := false
@@ -247,7 +252,7 @@ func execCase(c Case) (res vt.Result) {
 			if err := s.Close(); err != nil {
 				return fail(i, "close: %v", err)
 			}
-			if s, err = drive.Open(path, h.Schema, h.MaxPointSize, mgr); err != nil {
+			if s, err = drive.OpenNamed(path, h.Schema, h.MaxPointSize, mgr, h.Rename); err != nil {
 				return fail(i, "reopen: %v", err)
 			}
 		case "evict":
@@ -262,7 +267,7 @@ func execCase(c Case) (res vt.Result) {
 			if err := drive.CopyFile(path, cp); err != nil {
 				return fail(i, "copy: %v", err)
 			}
-			if cold, err = drive.Open(cp, h.Schema, h.MaxPointSize, cache.NewManager(-1)); err != nil {
+			if cold, err = drive.OpenNamed(cp, h.Schema, h.MaxPointSize, cache.NewManager(-1), h.Rename); err != nil {
 				return fail(i, "open cold copy: %v", err)
 			}
 		}
